@@ -630,6 +630,10 @@ func slotsFor(r *rand.Rand, used int64, parts []PartDev) int64 {
 func sharedLabels(add func(string), shared []SharedDev, claims []AClaim, granted map[string]bool) {
 	polKind := func(p CapPolicy) string {
 		switch {
+		case p.Range && p.Step != 0 && p.Min%p.Step != 0 && p.Max != 0:
+			return "range+step+max,min-off-the-multiples-of-step"
+		case p.Range && p.Step != 0 && p.Min%p.Step != 0:
+			return "range+step,min-off-the-multiples-of-step"
 		case p.Range && p.Step != 0 && p.Max != 0:
 			return "range+step+max"
 		case p.Range && p.Step != 0:
@@ -679,8 +683,9 @@ func sharedLabels(add func(string), shared []SharedDev, claims []AClaim, granted
 }
 
 // genCapPolicy: an API-valid request policy for a dimension of capacity cap (≥ 2): none (a request without an entry
-// consumes the whole capacity), a default only, validValues with the default among them, or a validRange (min a multiple
-// of step, max and default on the step grid, all within the capacity)
+// consumes the whole capacity), a default only, validValues with the default among them, or a validRange (step 1..3; min a
+// multiple of step or - half of the cases - any value 0..step+1, so that the grid min + n*step does not pass through the
+// multiples of step; max and default on that grid, all within the capacity)
 func genCapPolicy(r *rand.Rand, cap int64) CapPolicy {
 	switch r.IntN(7) {
 	case 0, 1:
@@ -699,8 +704,13 @@ func genCapPolicy(r *rand.Rand, cap int64) CapPolicy {
 		}
 		return CapPolicy{Values: vals, Def: pick(r, vals)}
 	default:
-		step := int64(1 + r.IntN(2))
+		step := int64(1 + r.IntN(3))
 		p := CapPolicy{Range: true, Min: step * r.Int64N(2)}
+		if r.IntN(2) == 0 {
+			// the grid min + n*step need not pass through 0: any min, in particular one that is not a multiple of step
+			// (then a request that is a multiple of step is NOT a grid point)
+			p.Min = r.Int64N(step + 2)
+		}
 		if p.Min+step > cap {
 			step, p.Min = 1, 1
 		}
